@@ -39,6 +39,31 @@ chk("C17", "schedsim", "exploration",
     "2-4 real goroutines issue generated call sequences on ONE shared ProtoForkChoice / PubkeyCache (+ the CachedPubkeys it hands out, real BLS decompression) / AttestationPool / SyncCommitteePool / slashing and exit pools under a seeded cooperative scheduler that owns every lock acquire/release (build-time overlay shim around package sync; /repo untouched). Exactly one task runs at a time; hand-off uses raw pipe syscalls that create no happens-before edge, so the Go race detector (-race build) reports every conflicting access pair not ordered by the component's own locks although the run is serialised and replays exactly. Verdicts: race report (normalised to the pair of zrnt functions), 'all unfinished tasks blocked' (deterministic deadlock verdict incl. writer-preference of RWMutex), panic/fatal, and porcupine linearizability of the recorded call/return history (global event sequence stamps) against the sequential behaviour of the same code.",
     "Schedules are sampled (seeded), <= 4 tasks x <= 4 calls; yield points exist at lock operations and call boundaries only (code that takes no lock is covered by the race detector, not by interleaving inside it); the sequential specification for linearizability is the implementation itself run single-threaded (its sequential correctness is the business of C09-C11/C16/C20); porcupine timeouts are counted as inconclusive.",
     SIM + "seeded cooperative scheduler over real goroutines + race detector without scheduler-induced happens-before + porcupine linearizability", "DESIGN.md section 6 C17, section 7")
+CHAIN = "Simulated beacon network on the real zrnt code: 1-3 nodes (slot-by-slot ticker, multi-slot jumper, restarter that rebuilds from SSZ bytes), 16-64 validators with real BLS keys doing honest-validator duties, swarm-drawn presets (small vectors so wrap-arounds, sync periods, eth1 voting periods and queues turn over inside a run) and fork schedules (equal, adjacent, never-activated forks), blocks carrying attestations, slashings, deposits with real Merkle proofs, exits, BLS changes, sync aggregates, payloads, withdrawals, blob commitments; faults: skipped slots, partitions with late batch delivery, crash/restart, competing forks. "
+chk("C04", "chainsim", "exploration",
+    CHAIN + "C04 monitors at every seam where bytes leave or enter a node (signed blocks of 5 forks through ForkDecoder, beacon states of 5 forks on the restart/disk path): bytes written == ByteLength, FixedLength says variable, decode(encode(v)) re-encodes identically with the same root, struct-form bytes == tree-view bytes, JSON and YAML round trips; stream faults: legal short reads change nothing, a reader error at a PRNG-chosen byte and a failing writer surface as errors, truncated frames and a wrong first offset are refused (a cut at an element boundary of the trailing list is accepted only if it is itself a canonical encoding).",
+    "PARTIAL by design: only types that cross a simulated seam are covered (signed blocks and everything nested in them, beacon states and everything nested in them, phase0..deneb); the 'every exported type x every value' part of the statement is a pure function of the value and is not decided by this technique; Electra, light-client and pending-request types never ride a seam here. No independent SSZ codec: the reference is agreement between the struct form and the tree-view form.",
+    SIM + "seam monitors on a simulated network + injected stream faults (short/err reads, failing writer, torn frames, bad offsets)", "DESIGN.md section 6 C04")
+chk("C05", "chainsim", "exploration",
+    CHAIN + "C05 monitors: after transitions on every node (mutation histories on structurally shared trees: resets at wrap-around of small vectors, participation rotation, registry appends, sibling copies advanced alternately) the state's tree root == struct-form root of the same content == root of a view rebuilt from its own bytes; block header root == envelope root.",
+    "PARTIAL: three-way agreement is between zrnt's tree-view merkleization, zrnt's struct-form merkleization and a rebuild from bytes; an independent merkleizer of the SSZ spec is not part of this revision (refspec compares state roots through the struct form only). Types that never ride a seam are not covered.",
+    SIM + "stale-cache detection by rebuild-from-scratch along simulated mutation histories", "DESIGN.md section 6 C05")
+chk("C08", "chainsim", "exploration",
+    CHAIN + "C08 monitors after every block import, slot tick, epoch boundary, deposit and upgrade on every node: the live EpochsContext (three shufflings with active sets and committees, proposers, effective balances, total active stake and its root, sync-committee indices and pubkeys, pubkey/index lookups of the whole registry) equals NewEpochsContext(state); every node reaches the same block by a different path (ticked state, multi-slot jump, state reloaded from bytes with a fresh context after a crash) and must give the same verdict and the same post-state root.",
+    "Oracle is the from-scratch path of the same code plus cross-path agreement (a fault common to both paths needs the refspec checks of C01/C02/C07, not yet claimed).",
+    SIM + "incremental-vs-from-scratch refinement along simulated histories with crash/restart and partition faults", "DESIGN.md section 6 C08")
+chk("C14", "chainsim", "exploration",
+    CHAIN + "C14 monitors at every state reached on every node under the run's fork schedule: Spec.ForkVersion(slot), ForkDecoder.ForkDigest(epoch), the Go type BlockAllocator(digest) yields, the state type after ProcessSlots, and state.fork (previous/current/epoch) all name the fork the harness's own schedule function names; bytes -> block -> envelope preserves root, signature and state root; blocks signed under the slot's version verify (they are imported with signature validation).",
+    "PARTIAL: the lookup-agreement part is decided; 'a block signed under any other version does not verify' is only covered through C03-style faults once those are claimed; the comparison of the built-in mainnet/minimal constant tables with the published ones is a data comparison, not a simulation, and is not part of this revision.",
+    SIM + "fork-schedule swarm (equal/adjacent/never forks) with lookup-agreement invariants at every simulated slot", "DESIGN.md section 6 C14")
+chk("C15", "chainsim", "exploration",
+    CHAIN + "C15 monitors: every stored post-state (builder and nodes) is snapshotted as bytes at store time and re-serialized at later events after siblings/descendants derived from CopyState+Clone were advanced by full transitions in PRNG-interleaved order: it must never change; accessor sweep on reached states of all five forks: every getter and typed sub-view element (validators, balances, mixes, roots, slashings, checkpoints, header, eth1 data, fork) equals the encoded state; 17 setters applied to a copy change exactly their field of the encoded state and nothing in the original.",
+    "Accessor exactness is a per-field fact sampled on reached states (not proved); fork-specific accessors (participation, inactivity scores, sync committees, execution header, withdrawal cursors) are covered only through the transitions that use them.",
+    SIM + "snapshot-immutability monitor over sibling copies advanced on different nodes + accessor sweep", "DESIGN.md section 6 C15")
+chk("C18", "chainsim", "fault_enumeration",
+    CHAIN + "C18: for every block import of node 0 and both validateResult settings: an undisturbed run under a poll-counting context and a recording engine must equal the plain run; then EVERY context poll k (cancel from poll k on; quick tier: all k for a third of the transitions, a stride sample otherwise) and EVERY engine call x {invalid, error} is injected on a fresh copy and the transition must return an error; ProcessSlots alone likewise; the recorded engine arguments must be the body's payload, 0x01||sha256(commitment)[1:] per commitment in order, and the block's parent root.",
+    "Enumeration is complete over the fault points of each explored transition (thorough tier), exploration over transitions. 'Work it did not complete' is judged by the error return only.",
+    SIM + "enumerated fault points (context polls, engine calls x verdicts) per simulated transition", "DESIGN.md section 6 C18")
 
 pending = {
  "C01": "check not built yet (planned: chainsim + refspec); not claimed in this revision",
@@ -65,6 +90,7 @@ engines = [
  {"name": "cachesim", "path": "sim/cachesim", "serves_properties": ["C16"], "kind_free_text": "tree of deposit histories sharing real PubkeyCache handles vs. per-handle list model"},
  {"name": "poolsim", "path": "sim/poolsim", "serves_properties": ["C20"], "kind_free_text": "operation pools fed by faulty arrival histories vs. set/relation model"},
  {"name": "schedsim", "path": "sim/schedsim", "serves_properties": ["C17"], "kind_free_text": "seeded cooperative scheduler over real goroutines on shared components; race detector; porcupine"},
+ {"name": "chainsim", "path": "sim/chainsim", "serves_properties": ["C04", "C05", "C08", "C14", "C15", "C18"], "kind_free_text": "simulated beacon network on the real state transition; metamorphic/self oracles + fault enumeration"},
  {"name": "fcsim", "path": "sim/fcsim", "serves_properties": ["C09", "C10", "C11"], "kind_free_text": "abstract block-tree histories on the real ProtoForkChoice/ProtoArray/ProtoVoteStore vs. naive GHOST + tree walk"},
 ]
 m = {
